@@ -196,7 +196,13 @@ func (c *Connect) Unpack(r io.Reader) (err error) {
 			return err
 		}
 	}
-	return c.unpackPayload(bufr)
+	if err := c.unpackPayload(bufr); err != nil {
+		return err
+	}
+	if bufr.Len() != 0 { // bytes left over inside the remaining length
+		return codes.ErrMalformed
+	}
+	return nil
 }
 
 func (c *Connect) unpackPayload(bufr *bytes.Buffer) error {
